@@ -8,7 +8,7 @@
        the code as found, preservation for the repaired code on an exhaustive bounded family. *)
 From PV Require Import Lib.Py Spec.IRSyntax Spec.CfgSpec Spec.IRWf.
 From PV Require Import Model.IRWfCheck Model.Verify Model.IRStore.
-From PV Require Import Proofs.C03_wf Proofs.C03_verify Proofs.C03_store Proofs.C03_store_inv.
+From PV Require Import Proofs.C03_wf Proofs.C03_verify Proofs.C03_store Proofs.C03_store_inv Proofs.C03_refs_inv.
 From Coq Require Import String.
 Open Scope nat_scope.
 Open Scope string_scope.
@@ -112,19 +112,22 @@ Theorem c03_jump_delete_refuted :
 Proof. exact (conj jump_delete_refuted jump_delete_stale_refuted). Qed.
 Print Assumptions c03_jump_delete_refuted.
 
-(* not repaired (known findings; no optimisation pass reaches them) *)
-Theorem c03_set_var_refuted : forall fx,
-  after fx [(10, SPlain [("a", 0); ("b", 0)])] (OSetVar 10 "a" 1) ok_inconsistent = true.
+(* the attribute setter and remove_from_block on jumps: refuted in every configuration without
+   their repairs fixes/C03-value-use-setter.diff / C03-jump-remove-from-block.diff *)
+Theorem c03_set_var_refuted : forall a b c d e g,
+  after (mk_fixes a b c d e false g) [(10, SPlain [("a", 0); ("b", 0)])] (OSetVar 10 "a" 1)
+        ok_inconsistent = true.
 Proof. exact set_var_refuted. Qed.
 Print Assumptions c03_set_var_refuted.
 
-Theorem c03_remove_from_block_jump_refuted : forall fx,
-  after fx [(10, SJump [] [("target", 1)])] (ORemoveFromBlock 10) ok_inconsistent = true.
+Theorem c03_remove_from_block_jump_refuted : forall a b c d e f,
+  after (mk_fixes a b c d e f false) [(10, SJump [] [("target", 1)])] (ORemoveFromBlock 10)
+        ok_inconsistent = true.
 Proof. exact remove_from_block_jump_refuted. Qed.
 Print Assumptions c03_remove_from_block_jump_refuted.
 
 (* ---- (3) repaired code: every mutator maps consistent states to consistent states, for the
-   family contexts x shapes x ops of Proofs/C03_store.v (3 x 188 x 80 = 45120 scenarios) *)
+   family contexts x shapes x ops of Proofs/C03_store.v (3 x 188 x 88 = 49632 scenarios, incl. the setter and remove_from_block on jumps) *)
 Theorem c03_mutators_preserve_bookkeeping_bounded : all_cases_ok all_fixed = true.
 Proof. exact mutators_preserve_bookkeeping_bounded. Qed.
 Print Assumptions c03_mutators_preserve_bookkeeping_bounded.
@@ -159,6 +162,23 @@ Theorem c03_del_incoming_preserves_def_use : forall s i b s' x,
   del_incoming all_fixed s i b = Ok s' -> INV s'.
 Proof. exact del_incoming_INV. Qed.
 Print Assumptions c03_del_incoming_preserves_def_use.
+
+(* ---- (3c) repaired code, UNBOUNDED: Block.references = derived referring jumps (REFS) is preserved by
+   every operation of the scenario language — set_target_block, change_target, delete,
+   remove_from_block, remove_instruction+delete, and all def-use mutators — for all states and
+   arguments, hence by every operation sequence *)
+Theorem c03_block_refs_inv : forall os s s',
+  REFS s -> run_ops all_fixed s os = Ok s' -> REFS s'.
+Proof. exact block_refs_inv. Qed.
+Print Assumptions c03_block_refs_inv.
+
+Theorem c03_block_refs_inv_step : forall s o s',
+  REFS s -> run_op all_fixed s o = Ok s' -> REFS s'.
+Proof. exact run_op_REFS. Qed.
+Print Assumptions c03_block_refs_inv_step.
+
+Example c03_refs_nonvacuous : REFS empty_store.
+Proof. exact REFS_empty. Qed.
 
 Example c03_inv_nonvacuous : INV empty_store.
 Proof. exact INV_empty. Qed.
